@@ -30,6 +30,15 @@ pub enum Ev {
     /// the peer of held channel i hangs up: the application polls the channel once and sees its
     /// request stream end, but keeps the channel (it still counts until it is dropped)
     HangUp(u8),
+    /// close channel i, whose transport takes a moment to destroy: one listener poll runs inside
+    /// the transport's destructor. Until that destructor has returned the connection exists (the
+    /// socket is open, the buffers are allocated): it is alive, and holds its slot.
+    CloseSlow(u8),
+}
+
+thread_local! {
+    /// (seq, hook): run once inside the destructor of transport `seq`, before it counts as gone
+    static DROP_HOOK: RefCell<Option<(u32, Rc<dyn Fn()>)>> = const { RefCell::new(None) };
 }
 
 #[derive(Default)]
@@ -64,6 +73,17 @@ struct KeyedTransport {
 }
 impl Drop for KeyedTransport {
     fn drop(&mut self) {
+        let hook = DROP_HOOK.with(|h| {
+            let mut h = h.borrow_mut();
+            if matches!(&*h, Some((s, _)) if *s == self.seq) {
+                h.take().map(|x| x.1)
+            } else {
+                None
+            }
+        });
+        if let Some(f) = hook {
+            f();
+        }
         self.obs.borrow_mut().dropped.push(self.seq);
     }
 }
@@ -255,6 +275,43 @@ fn replay_inner(n: u32, hist: &[Ev]) -> Outcome {
                 let r = stream.as_mut().poll_next(&mut cx);
                 obs.borrow_mut().log.push(format!("  held channel polled after its peer hung up -> {}", match r { Poll::Ready(None) => "ended", Poll::Ready(Some(())) => "item", Poll::Pending => "pending" }));
             }
+            Ev::CloseSlow(i) => {
+                let item = held.borrow_mut()[i as usize].take();
+                let Some((seq, _k, ch)) = item else {
+                    violation.get_or_insert("machinery|close of a channel that is not held".into());
+                    break;
+                };
+                let fired = Rc::new(RefCell::new(false));
+                let nv: Rc<RefCell<Option<String>>> = Rc::new(RefCell::new(None));
+                {
+                    let (fired, nv, dp, obs2) = (fired.clone(), nv.clone(), do_poll.clone(), obs.clone());
+                    DROP_HOOK.with(|h| {
+                        *h.borrow_mut() = Some((
+                            seq,
+                            Rc::new(move || {
+                                *fired.borrow_mut() = true;
+                                obs2.borrow_mut().log.push("  [inside the transport's destructor: the connection still exists] nested Poll".into());
+                                if let Some(v) = dp(n) {
+                                    nv.borrow_mut().get_or_insert(v);
+                                }
+                            }),
+                        ))
+                    });
+                }
+                drop(ch);
+                DROP_HOOK.with(|h| *h.borrow_mut() = None);
+                // only now has the channel gone
+                alive.borrow_mut().retain(|(s, _)| *s != seq);
+                if !*fired.borrow() {
+                    violation.get_or_insert("machinery|the transport's destructor did not run when the channel was dropped".into());
+                } else {
+                    nontrivial = true;
+                }
+                let v = nv.borrow_mut().take();
+                if let Some(v) = v {
+                    violation.get_or_insert(v);
+                }
+            }
             Ev::Close(i) | Ev::CloseNested(i) => {
                 let nested = matches!(ev, Ev::CloseNested(_));
                 let item = held.borrow_mut()[i as usize].take();
@@ -307,6 +364,7 @@ fn replay_inner(n: u32, hist: &[Ev]) -> Outcome {
         if let Some((_, _, (_, _, done))) = h {
             enabled.push(Ev::Close(i as u8));
             enabled.push(Ev::CloseNested(i as u8));
+            enabled.push(Ev::CloseSlow(i as u8));
             if !*done {
                 enabled.push(Ev::HangUp(i as u8));
             }
@@ -476,7 +534,7 @@ pub fn run_c13(tier: Tier) -> i32 {
             "traces_validated_against_impl": total_hist,
             "evaluations": total_hist,
             "distinct_nontrivial": nontrivial,
-            "rule": "breadth-first over ALL event histories up to the depth (alphabet: Arrive(key a), Arrive(key b) - two keys that are unequal but hash alike -, Poll of the limited stream, Close(i) of a held channel, CloseNested(i) = close with one listener poll at the yield point inside the tracker's drop, HangUp(i) = the peer of held channel i ends its stream and the application polls the channel once without dropping it); every history is replayed from scratch on a fresh real MaxChannelsPerKey and compared with a per-key counter at every dequeue; `states` counts distinct (alive multiset, pending arrivals, shed count) fingerprints, no merging is used to prune; non-trivial = a close adjacent to a poll/arrival or a nested poll that fired",
+            "rule": "breadth-first over ALL event histories up to the depth (alphabet: Arrive(key a), Arrive(key b) - two keys that are unequal but hash alike -, Poll of the limited stream, Close(i) of a held channel, CloseSlow(i) = close of a channel whose transport runs one listener poll inside its destructor (until the destructor returns the channel is alive), CloseNested(i) = close with one listener poll at the yield point inside the tracker's drop, HangUp(i) = the peer of held channel i ends its stream and the application polls the channel once without dropping it); every history is replayed from scratch on a fresh real MaxChannelsPerKey and compared with a per-key counter at every dequeue; `states` counts distinct (alive multiset, pending arrivals, shed count) fingerprints, no merging is used to prune; non-trivial = a close adjacent to a poll/arrival or a nested poll that fired",
             "samples": samples,
             "exhaustive": !cut && machinery.is_empty(),
             "depth_completed": {"n1": completed_depth[0], "n2": completed_depth[1], "n_u32_max": completed_depth[2]},
